@@ -52,6 +52,7 @@ registry! {
     "C06" => c06,
     "C08" => c08,
     "C09" => c09,
+    "C10" => c10,
     "C11" => c11,
     "C12" => c12,
     "C13" => c13,
